@@ -55,7 +55,9 @@ def run(F, chk):
         ra.ok("max_buffer_size writers", "", "never reassigned after construction", nontrivial=False)
     # ---------------- R-C11-b ---------------------------------------------------
     rb = chk.rule("R-C11-b", "T3", "an error exit of the frame reader never leaves the offending frame in place", floor=3)
-    tr = F.body(CHF + "try_read_delimited_message")
+    tr0 = F.body(CHF + "try_read_delimited_message")
+    tr = lib.flat(F, tr0)          # private helpers of the reader are part of the reader
+    n_own = len(tr0.locals)
     rb.fn(tr.path)
     anchor = [bi for bi, t in tr.calls() if t.get("fn", "").endswith("from_le_bytes")]
     consume = [bi for bi, t in tr.calls() if callee_of(t) == BUF + "::consume"]
@@ -75,6 +77,10 @@ def run(F, chk):
                 errs.append((bi, name))
         for bi, t in tr.calls():
             if t.get("fn", "").endswith("FromResidual::from_residual") and bi in after:
+                # `helper()?` on a spliced-in helper only forwards an error whose construction site (inside the helper)
+                # is listed on its own
+                if any(l >= n_own for a in t["args"] for l in guards.slice_of_operand(tr, a)["locals"]) and not tr.blocks[bi].get("of"):
+                    continue
                 errs.append((bi, "? (" + residual_name(tr, t) + ")"))
         noconsume = tr.reach_from([tr.blocks[a]["t"]["to"]], removed=consume)
         for bi, name in errs:
